@@ -1,6 +1,6 @@
 (* C09: what a re-used RunnerState can carry into the next run (as far as the walker / dispatch model reads it),
    how the start of a run treats it, and history independence. *)
-From Coq Require Import List NArith Bool Arith.
+From Coq Require Import List NArith Bool Arith String.
 From RG.Ast Require Import Tree Walker.
 Import ListNotations.
 
@@ -60,3 +60,44 @@ Fixpoint str_mem (s : String.string) (l : list String.string) : bool :=
   match l with [] => false | x :: l' => String.eqb x s || str_mem s l' end.
 Fixpoint strs_eqb (a b : list String.string) : bool :=
   match a, b with [] , [] => true | x :: a', y :: b' => String.eqb x y && strs_eqb a' b' | _, _ => false end.
+
+(* ---------- registers carried in the state that an evaluation reads ----------
+   (the capture preset of the Contains() sub-matcher, the variadic-length register of the bytecode operand stack):
+   what matters is whether the evaluation stores its OWN value before it reads the register. *)
+Inductive write_policy := WriteAlways | WriteSometimes | WriteNever.
+
+Definition policy_of_string (s : String.string) : option write_policy :=
+  if String.eqb s "always"%string then Some WriteAlways
+  else if String.eqb s "sometimes"%string then Some WriteSometimes
+  else if String.eqb s "never"%string then Some WriteNever else None.
+
+Section Register.
+Variable A : Type.
+Variable pol : write_policy.
+(* one evaluation: its own value (the captures of the current match / the number of variadic arguments at the call
+   site) and whether a conditional store fires for it; [v] is what the register holds when the evaluation starts *)
+Definition reg_read (v own : A) (fires : bool) : A :=
+  match pol with WriteAlways => own | WriteSometimes => if fires then own else v | WriteNever => v end.
+(* stores are the only writes: after the evaluation the register holds what the evaluation read *)
+Fixpoint reg_history (v : A) (h : list (A * bool)) : list A :=
+  match h with
+  | [] => []
+  | (own, f) :: h' => reg_read v own f :: reg_history (reg_read v own f) h'
+  end.
+
+(* every evaluation of every sequence (other rules, other nodes, other files, earlier runs on the same state, any
+   left-over) reads its own value *)
+Theorem reg_history_independent : pol = WriteAlways -> forall v h, reg_history v h = map fst h.
+Proof.
+  intros Hp v h. revert v. induction h as [|[own f] h IH]; intros v; [reflexivity|].
+  cbn [reg_history map fst]. rewrite IH. unfold reg_read. now rewrite Hp.
+Qed.
+End Register.
+
+(* a store that is skipped for some evaluations makes them read what an unrelated evaluation left *)
+Lemma reg_sometimes_leaks :
+  reg_history N WriteSometimes 0%N [(2%N, true); (1%N, false)] = [2%N; 2%N] /\
+  reg_history N WriteSometimes 7%N [(1%N, false)] <> reg_history N WriteSometimes 0%N [(1%N, false)].
+Proof. split; [reflexivity|discriminate]. Qed.
+Lemma reg_never_leaks : reg_history N WriteNever 7%N [(1%N, true)] = [7%N].
+Proof. reflexivity. Qed.
